@@ -13,6 +13,7 @@ import numpy as np
 from rv import core, fcsgen, zoo
 
 LEVEL = 'exploration'
+LEVEL_TEXT = 'Contract on FCSData(path) + accessor sweep against a reference derivation from the keywords over a presence/well-formed/ill-formed lattice of optional keywords x time channel x version, and on the real instrument files shipped with the repository. Exploration.'
 TECHNIQUE = 'runtime contract on FCSData(path) + accessor sweep vs a reference keyword derivation over a keyword-presence lattice'
 RULE = ('optional keywords {$TIMESTEP, TIMETICKS, $BTIM, $ETIM, $DATE, $PnV, $PnG, $PnS, CREATOR, BD$WORDn, CytekPnnG} '
         'each absent / well-formed (every accepted format) / ill-formed (non-numeric, wrong field count, out-of-range '
